@@ -27,6 +27,36 @@ V = [
          old="    self.wal.sync()?;\n    let manifest_snapshot", new="    let manifest_snapshot", key="R01.a"),
     dict(name="c01-cleanup-published", pid="C01", kind="break", file=W,
          old="      new_segments.push(segment.clone());\n", new="      new_segments.push(segment.clone());\n      new_segments.extend(manifest_snapshot.segments.iter().cloned());\n", key="R01.f"),
+    # ---- C02
+    dict(name="c02-swap-type-codes", pid="C02", kind="break", file=WAL,
+         old="    self.append_entry(2, &[])", new="    self.append_entry(3, &[])", key="R02.a",
+         extra=[(WAL, "    self.append_entry(3, doc_id.as_bytes())", "    self.append_entry(2, doc_id.as_bytes())")]),
+    dict(name="c02-continue-on-bad-crc", pid="C02", kind="break", file=WAL,
+         old="      if checksum.to_le_bytes() != checksum_bytes {\n        break;\n      }",
+         new="      if checksum.to_le_bytes() != checksum_bytes {\n        continue;\n      }", key="R02.b"),
+    dict(name="c02-rollback-keeps-log", pid="C02", kind="break", file=W,
+         old="    self.pending_ops.clear();\n    self.wal.truncate()?;\n    Ok(())", new="    self.pending_ops.clear();\n    Ok(())", key="R02.c"),
+    dict(name="c02-drop-no-sync", pid="C02", kind="break", file=W,
+         old="      if let Err(e) = self.wal.sync() {", new="      if let Err(e) = self.wal.len().map(|_| ()) {", key="R02.c"),
+    dict(name="c02-revert-tail-truncation", pid="C02", kind="break", revert="db3bd73", key="R02.d"),
+    dict(name="c02-crc-payload-only", pid="C02", kind="break", file=WAL,
+         old="    hasher.update(&buf[buf.len() - payload.len() - 1..]);", new="    hasher.update(&buf[buf.len() - payload.len()..]);", key="R02.a"),
+    dict(name="c02-valid-len-before-crc", pid="C02", kind="break", file=WAL,
+         old="      cursor = checksum_end;\n", new="      cursor = checksum_end;\n      valid_len = cursor;\n", key="R02.d"),
+    dict(name="c02-commit-not-clearing", pid="C02", kind="break", file=WAL,
+         old="        WalEntry::Commit => pending.clear(),", new="        WalEntry::Commit => {}", key="R02.c"),
+    # ---- C03
+    dict(name="c03-revert-post-publish", pid="C03", kind="break", revert="3ccb9e3", key="R03.a"),
+    dict(name="c03-revert-cleanup-guard", pid="C03", kind="break", revert="0e3dc1f", key="R03.c"),
+    dict(name="c03-discard-store", pid="C03", kind="break", file=W,
+         old="      new_manifest.store(self.inner.storage.as_ref(), &manifest_path)?;", new="      let _ = new_manifest.store(self.inner.storage.as_ref(), &manifest_path);", key="R03.d"),
+    dict(name="c03-ok-on-segment-write", pid="C03", kind="break", file="searchlite-core/src/index/segment.rs",
+         old="    postings_file.sync_all()?;", new="    postings_file.sync_all().ok();", key="R03.d"),
+    dict(name="c03-push-before-append", pid="C03", kind="break", file=W,
+         old="    self.wal.append_add_doc(doc)?;\n    self.pending_ops.push(PendingOp::Add {\n      doc_id: doc_id.clone(),\n      doc: doc.clone(),\n    });",
+         new="    self.pending_ops.push(PendingOp::Add {\n      doc_id: doc_id.clone(),\n      doc: doc.clone(),\n    });\n    self.wal.append_add_doc(doc)?;", key="R03.e"),
+    dict(name="keep-c03-cleanup-in-ok-arm", pid="C03", kind="keep", file=W,
+         old="      if manifest_restored && !new_segments.is_empty() {", new="      if !new_segments.is_empty() && manifest_restored {", key=""),
     # behaviour-preserving
     dict(name="keep-c01-extract-persist", pid="C01", kind="keep", file=W,
          old="    if let Err(e) = (|| -> Result<()> {\n      new_manifest.store(self.inner.storage.as_ref(), &manifest_path)?;\n      self.wal.append_commit()?;\n      self.wal.sync()?;\n      Ok(())\n    })() {",
